@@ -362,6 +362,44 @@ def build_api(spec):
     return sc, objs
 
 
+def build_api_rebuilt(spec):
+    """the same statechart, reached through an editing history: every state is first added as a
+    placeholder directly under the root, every query is exercised, the placeholders are removed and the
+    real states are added under their real parents (names are re-used under other parents)"""
+    from sismic.model import BasicState, CompoundState, OrthogonalState, Statechart
+    T = Tree(spec)
+    pre = Statechart('placeholder')
+    rootspec = T.st[T.root]
+    pre.add_state(CompoundState(T.root) if rootspec['kind'] == 'C' else OrthogonalState(T.root), None)
+    for n in T.order[::-1]:
+        if n != T.root:
+            pre.add_state(BasicState(n), T.root)
+    sc, objs = build_api(spec)
+    # graft: do the same on the real object so that any per-name cache filled now would be stale later
+    real = Statechart(spec.get('name', 't'), description=spec.get('description'), preamble=spec.get('preamble'))
+    real.add_state(sc.state_for(T.root), None)
+    for n in T.order[::-1]:
+        if n != T.root:
+            real.add_state(BasicState(n), T.root)
+    names = list(real.states)
+    for n in names:
+        real.ancestors_for(n), real.descendants_for(n), real.depth_for(n), real.children_for(n), real.parent_for(n)
+        for m in names:
+            real.least_common_ancestor(n, m)
+    real.leaf_for(names)
+    for n in list(real.children_for(T.root)):
+        real.remove_state(n)
+    for s in spec['states']:
+        if s['name'] != T.root:
+            real.add_state(sc.state_for(s['name']), s['parent'])
+    # remove_state reset the initial of the root (it pointed to a removed placeholder name)
+    if rootspec['kind'] == 'C':
+        real.state_for(T.root).initial = rootspec.get('initial')
+    for o in objs:
+        real.add_transition(o)
+    return real, objs
+
+
 def to_doc(spec):
     """nested YAML document (python dict) in declaration order; independent of sismic's exporter"""
     T = Tree(spec)
